@@ -134,7 +134,17 @@ def tsan_runs(res, tier, seed):
     samples = []
     for k, (n, rounds) in enumerate(plan):
         sd = seed * 1000 + k
-        rc, o, e = vlib.sh([exe, str(n), str(rounds), str(sd)], env={"TSAN_OPTIONS": "halt_on_error=0:report_signal_unsafe=0"}, timeout=600)
+        env = {"TSAN_OPTIONS": "halt_on_error=0:report_signal_unsafe=0"}
+        if k % 2 == 1:
+            # cold start: the concurrent runs are the first use of the library in their process; the reference
+            # hashes come from a solo-only process
+            rc0, o0, e0 = vlib.sh([exe, str(n), str(rounds), str(sd), "0", "soloonly"], env=env, timeout=600)
+            want = [l.split()[2] for l in o0.splitlines() if l.startswith("solo ")]
+            rc, o, e = vlib.sh([exe, str(n), str(rounds), str(sd), "0", "cold"] + want, env=env, timeout=600)
+            if rc0 != 0 or len(want) != n:
+                rc, e = 99, "solo-only reference run failed: rc=%s\n%s" % (rc0, e0[-1500:])
+        else:
+            rc, o, e = vlib.sh([exe, str(n), str(rounds), str(sd)], env=env, timeout=600)
         runs += 1
         summ = sorted({re.sub(r"<.*", "", l)[:160] for l in e.splitlines() if l.startswith("SUMMARY: ThreadSanitizer")})
         diff = [l for l in o.splitlines() if "DIFFERENT" in l]
@@ -142,7 +152,7 @@ def tsan_runs(res, tier, seed):
             samples.append({"threads": n, "rounds": rounds, "seed": sd, "stdout": o.splitlines()[:4]})
         if rc != 0 or summ or diff:
             races += len(summ)
-            fails.append({"threads": n, "rounds": rounds, "seed": sd, "rc": rc, "tsan": summ[:12], "different_output": diff[:8],
+            fails.append({"threads": n, "rounds": rounds, "seed": sd, "cold": k % 2 == 1, "rc": rc, "tsan": summ[:12], "different_output": diff[:8],
                           "stderr_head": e[:1500]})
             if len(fails) >= 3:
                 break
@@ -158,7 +168,7 @@ def check(res, tier, seed):
                         "(thread-local by ELF type, the rest by props/C20_audit.json; no rule = Unaccounted breaks the audit theorem); "
                         "the lock modes of BlockAllocSafe are re-extracted from BlockAlloc.h into coq/C20/Generated.v and the protocol theorem is re-checked; "
                         "then N OS threads (2..8 quick, 2..16 thorough) each drive their own ScriptContext through compile/execute/wait/nested waitthread calls/reset/destroy (every other host sets its own interpreter nesting limit), followed by a pool-churn phase (each thread keeps > 256 entries in its own con::map<str,str>, all drawn from one process-wide pool, and removes/adds 4000 x rounds entries so that slots of full blocks change hands between threads) under "
-                        "ThreadSanitizer with seed-dependent start offsets; per-thread output must equal the solo run; distinct = distinct (threads, rounds) shapes. ")
+                        "ThreadSanitizer with seed-dependent start offsets; per-thread output must equal the solo run; every other run is a COLD start (the concurrent engines are the first use of the library in their process, the reference output comes from a solo-only process), so first-use initialisation of the process-wide registries is raced too; distinct = distinct (threads, rounds) shapes. ")
     res.assumptions += ["partial: the theorem covers the lock protocol of the shared pools for every schedule and every number of threads; all other potential races are sampled by ThreadSanitizer only",
                         "the audit of process-wide objects is complete for the binary built from the current tree (checked on every run), but the usage rule of each kind "
                         "(InitOnly/HostConfig objects are not written while engines run, pools are only touched through BlockAllocSafe) is a claim recorded in props/C20_audit.json, trusted and sampled by ThreadSanitizer",
@@ -174,7 +184,7 @@ def check(res, tier, seed):
     fails = tsan_runs(res, tier, seed)
     for f in fails[:2]:
         res.violation({"property": CID, "kind": "tsan-or-output", "why": "data race reported by ThreadSanitizer or per-thread output differs from the solo run",
-                       "threads": f["threads"], "rounds": f["rounds"], "seed": f["seed"], "detail": f,
+                       "threads": f["threads"], "rounds": f["rounds"], "seed": f["seed"], "cold": f.get("cold", False), "detail": f,
                        "replay_cmd": "./check C20 --replay <this file>"})
     if tie_broken or not pst["ok"]:
         if not fails:
@@ -192,7 +202,14 @@ def replay(path):
     exe = vlib.build_harness("C20", ["harness/C20.cpp"], "tsan", True)
     bad = 0
     for k in range(5):
-        rc, o, e = vlib.sh([exe, str(rec["threads"]), str(rec["rounds"]), str(rec["seed"] + k)], env={"TSAN_OPTIONS": "halt_on_error=0"}, timeout=600)
+        base = [exe, str(rec["threads"]), str(rec["rounds"]), str(rec["seed"] + k)]
+        env = {"TSAN_OPTIONS": "halt_on_error=0"}
+        if rec.get("cold"):
+            rc0, o0, e0 = vlib.sh(base + ["0", "soloonly"], env=env, timeout=600)
+            want = [l.split()[2] for l in o0.splitlines() if l.startswith("solo ")]
+            rc, o, e = vlib.sh(base + ["0", "cold"] + want, env=env, timeout=600)
+        else:
+            rc, o, e = vlib.sh(base, env=env, timeout=600)
         if rc != 0 or "SUMMARY: ThreadSanitizer" in e or "DIFFERENT" in o:
             bad += 1
     print("replay: %d of 5 runs reported a race or a difference" % bad)
